@@ -4,7 +4,7 @@ History search against a reference model (the fault-free form of the technique):
 an in-memory object without I/O, clock or concurrency, so no fault kind applies; the only 'failure' is
 a rejected operation and the claim checked there is atomicity of rejection.
 
-Exhaustive: all histories up to length L (3 quick, 4 thorough) from the empty database over the
+Exhaustive: all histories up to length L (4 quick, 5 thorough) from the empty database over the
 alphabet below. Seeded: histories of length 5-40 from the empty database and from both shipped rule files.
 """
 
@@ -20,7 +20,7 @@ from . import common
 
 NPLANS = {"quick": 60, "thorough": 1500}
 RULE = (
-    "exhaustive plans: every operation sequence of length <= L (L=3 quick, 4 thorough) from the empty database over a 15-letter "
+    "exhaustive plans: every operation sequence of length <= L (L=4 quick, 5 thorough) from the empty database over a 19-letter "
     "alphabet (add of valid neutral / charged / mixture / explicit-H / isotopic compounds, invalid SMILES, duplicate formula with new "
     "SMILES, duplicate SMILES with new formula; add_entries of mixed validity with internal duplicates; remove present/absent), split "
     "by first letters across plans; seeded plans i = H(seed,'C19',i): 20 histories of length 5-40 from {empty, rules_manager.json.gz, "
@@ -41,6 +41,9 @@ COMPOUNDS = [
     ("HCl", "Cl"),
     ("Thorium", "[Th]"),
     ("Uranium", "[U]"),
+    ("CH4O", "CO"),            # a SMILES string that is also somebody else's formula
+    ("CO", "[C-]#[O+]"),
+    ("HO-", "[OH-]"),
 ]
 ALPHABET = [
     ["add", "H2O", "O"],
@@ -58,6 +61,10 @@ ALPHABET = [
     ["remove", "NaCl"],
     ["remove", "Nope"],
     ["remove", "CO2"],
+    ["add", "CH4O", "CO"],
+    ["add", "CO", "[C-]#[O+]"],
+    ["remove", "CO"],
+    ["remove", "O"],                        # no entry has this formula (it is water's SMILES)
 ]
 STARTS = ["empty", "rules_manager", "automated_rules"]
 
@@ -94,13 +101,13 @@ def gen_plan(base_seed, i, tier):
                 k = rng.randint(1, 4)
                 ops.append(["bulk", [list(rng.choice(COMPOUNDS)) if rng.random() < 0.8 else ["Bad%d" % rng.randint(0, 3), "C1CC"] for _ in range(k)]])
             else:
-                ops.append(["remove", rng.choice(COMPOUNDS)[0] if rng.random() < 0.8 else rng.choice(["Nope", "Cl2", "H2O", "NH3", "Br2"])])
+                ops.append(["remove", rng.choice(COMPOUNDS)[0] if rng.random() < 0.8 else rng.choice(["Nope", "Cl2", "H2O", "NH3", "Br2", "O", "N", "CO", "Cl", "[OH-]"])])
         hists.append({"start": rng.choice(STARTS), "ops": ops})
     return {"property": "C19", "kind": "seeded", "histories": hists}
 
 
 def extra_plans(tier, base_seed):
-    L = 3 if tier == "quick" else 4
+    L = 4 if tier == "quick" else 5
     plans = [{"property": "C19", "kind": "start_states"}]
     for a in range(len(ALPHABET)):
         plans.append({"property": "C19", "kind": "exhaustive", "first": a, "length": L})
